@@ -10,6 +10,8 @@
 //!   ans <id>                                          serve the pending store read from the current store
 //!   run <id>                                          resume that validation up to its next store read / its end
 //!   dump                                              local store content
+//!   evict <key>                                       the store drops that key (capacity eviction, range clean-up, removal of a failed write)
+//!   big <path> <kind> <delta>                         a well-formed record whose value is MAX_PACKET_SIZE+delta bytes long (big.rs)
 //!   sput <max> <len> <hdr> <existing>                 direct `RecordStore::put` (see sput.rs)
 //!   tamper <store> <path> <kind> <rk> <contentA> <pay> <contentB> <node> <variant>   structure-aware wire tampering (wire.rs)
 //!   close <r> <peers by distance>                     real `SwarmDriver` close set + upload paying the rank-r peer (closepeers.rs)
@@ -22,6 +24,8 @@
 //! Output: `<result class> | <command trace>` with H/G store reads, K closest-peers query, V contract call,
 //! P<amount> payment notification, W<key>=<content> local put, F<key>:<type> fetch-completed,
 //! R<key>:<type> replication of a fresh record (R0<key>: nothing stored to replicate).
+#[path = "validate/big.rs"]
+mod big;
 #[path = "validate/closepeers.rs"]
 mod closepeers;
 #[path = "validate/exec.rs"]
@@ -73,6 +77,8 @@ pub fn all_six(d: &Delivery) -> bool {
 
 fn pad_counter(desc: &str) -> Option<(u64, bool)> {
     let r = desc.strip_prefix('S')?;
+    // suffix `e`: the signature verifies (the unsigned `data_encoding` differs from the signed scratchpad's)
+    let r = r.strip_suffix('e').unwrap_or(r);
     let (n, valid) = match r.strip_suffix('i') {
         Some(n) => (n, false),
         None => (r, true),
@@ -89,7 +95,7 @@ fn id_set(desc: &str) -> Vec<String> {
 }
 
 /// Model-independent oracle for one completed validation: `before` is the local store when it started.
-fn oracle(ctx: &Ctx, d: &Delivery, res: &str, puts: &[(libp2p::kad::RecordKey, libp2p::kad::Record, Option<libp2p::kad::Record>)], before: &Store, out: &mut Out) {
+fn oracle(ctx: &Ctx, d: &Delivery, res: &str, puts: &[(libp2p::kad::RecordKey, libp2p::kad::Record, Option<libp2p::kad::Record>)], before: &Store, got_local: bool, out: &mut Out) {
     let hist = ctx.history.join(" ; ");
     if res == "panic" || res == "timeout" {
         out.oracle_fail("no-panic", &hist, &format!("validation ended with {res}"));
@@ -111,7 +117,8 @@ fn oracle(ctx: &Ctx, d: &Delivery, res: &str, puts: &[(libp2p::kad::RecordKey, l
             // the put key is not the key the record was presented under
             out.oracle_fail("C04:mismatch-rejected", &hist, &format!("presented under key {} but stored under {}", d.rk, key_str(key)));
         }
-        let existed = before.contains_key(&key.to_vec());
+        // held: at the time of this step, or when this validation read its local copy (the record it updates)
+        let existed = before.contains_key(&key.to_vec()) || got_local;
         // C03
         if d.client && !existed {
             if !is_paid(&d.kind) {
@@ -264,6 +271,11 @@ fn tamper_oracle(line: &str, res: &str, puts: &[(libp2p::kad::RecordKey, libp2p:
         if desc.contains('!') || desc.contains('?') || (desc.starts_with('S') && desc.ends_with('i')) {
             out.oracle_fail("C07:invalid-never-stored", line, &format!("content that is not validly signed by its owner stored at {}: {desc}", key_str(key)));
         }
+        if desc.starts_with('S') && desc.ends_with('e') {
+            // known finding K-f4 (C07, open): `data_encoding` is stored and served but not covered by the owner's
+            // signature; exactly this acceptance is counted, every other unsigned content is flagged above
+            out.count("known:K-f4-data-encoding-unsigned");
+        }
         if let Some(p) = prev {
             let pd = describe(key, p);
             if let (Some((n, _)), Some((pn, _))) = (pad_counter(&desc), pad_counter(&pd)) {
@@ -299,7 +311,7 @@ fn finish_inflight(ctx: &mut Ctx, id: &str, before: &Store, sequential: bool, ou
     match inf.done.clone() {
         Some(res) => {
             let inf = ctx.world.inflight.remove(id).expect("inflight");
-            oracle(ctx, &inf.d, &res, &inf.puts, before, out);
+            oracle(ctx, &inf.d, &res, &inf.puts, before, inf.got_local, out);
             if sequential {
                 oracle_after(ctx, &inf.d, &res, before, out);
             }
@@ -377,6 +389,19 @@ pub fn exec_line(ctx: &mut Ctx, line: &str, out: &mut Out) -> String {
             ctx.history.push(line.to_string());
             format!("store {}", dump_store(&ctx.world.store))
         }
+        Some("evict") if ws.len() == 2 => {
+            let Ok(k) = ws[1].parse::<u64>() else { return "bad-op".into() };
+            ctx.history.push(line.to_string());
+            out.count("evict");
+            // a store mutation concurrent with a validation: the per-key-serialised C07 clauses do not apply
+            if !ctx.world.inflight.is_empty() {
+                ctx.overlapped = true;
+            }
+            match ctx.world.store.remove(&record_key(k).to_vec()) {
+                Some(_) => "evicted".into(),
+                None => "absent".into(),
+            }
+        }
         Some("tamper") if ws.len() == 10 => {
             // tamper <store> <path> <kind> <rk> <contentA> <pay> <contentB> <node> <variant>
             let (Some(store), Some(mut d), Some(other), Ok(node)) = (parse_store(ws[1]), parse_delivery(&ws[2..7]), parse_content(ws[7]), ws[8].parse::<usize>()) else {
@@ -394,6 +419,39 @@ pub fn exec_line(ctx: &mut Ctx, line: &str, out: &mut Out) -> String {
             tamper_oracle(line, &res, &inf.puts, out);
             out.count(&format!("tamper-result:{res}"));
             fmt_out(&res, &inf.toks)
+        }
+        Some("big") if ws.len() == 4 => {
+            // big <path> <kind> <delta>: nothing held; valid content, right key, valid payment; only the size varies
+            let good = "0.0.1.f.1.1.5,1.1.1.f.1.1.2,2.2.1.f.1.1.3;0.1.2";
+            let (kind, rk, content) = match ws[2] {
+                "chunk" | "chunkp" => (ws[2], "0", "C0"),
+                "pad" | "padp" => (ws[2], "1", "S0.1.v"),
+                "junk" => ("chunk", "0", "X"),
+                "junkp" => ("chunkp", "0", "X"),
+                _ => return "bad-op".into(),
+            };
+            let pay = if is_paid(kind) { good } else { "-" };
+            let (Some(mut d), Ok(delta)) = (parse_delivery(&[ws[1], kind, rk, content, pay]), ws[3].parse::<i64>()) else { return "bad-op".into() };
+            d.big = Some(delta);
+            d.big_kind = ws[2].to_string();
+            ctx.history = vec![line.to_string()];
+            ctx.overlapped = false;
+            ctx.world.reset(Store::new());
+            out.count(&format!("big:{}:{}:{}", ws[1], ws[2], if delta < 0 { "below" } else { "at-or-above" }));
+            ctx.world.begin("x", d);
+            run_to_end(ctx, "x");
+            let inf = ctx.world.inflight.remove("x").expect("inflight");
+            let res = inf.done.clone().unwrap_or_else(|| "pend".into());
+            // oracle (C04): a record of MAX_PACKET_SIZE bytes or more is refused on every path and nothing is stored
+            if delta >= 0 && (res == "ok" || !inf.puts.is_empty()) {
+                let stored = inf.puts.first().map(|p| p.1.value.len()).unwrap_or(0);
+                out.oracle_fail("C04:oversize-refused", line, &format!("a record of MAX_PACKET_SIZE{delta:+} bytes was accepted (result {res}, {} put(s), stored value {stored} bytes)", inf.puts.len()));
+            }
+            if res == "panic" || res == "timeout" {
+                out.oracle_fail("no-panic", line, &format!("validation of a big record ended with {res}"));
+            }
+            out.count(&format!("big-result:{res}"));
+            format!("{res} puts={}", inf.puts.len())
         }
         Some("close") if ws.len() == 3 => {
             ctx.history = vec![line.to_string()];
@@ -440,7 +498,7 @@ fn main() {
         };
         let Some(line) = line else { break };
         let o = exec_line(&mut ctx, &line, &mut out);
-        if line.starts_with("case") || line.starts_with("deliver") || line.starts_with("sput") || line.starts_with("begin") || line.starts_with("close") || line.starts_with("tamper") {
+        if line.starts_with("case") || line.starts_with("deliver") || line.starts_with("sput") || line.starts_with("begin") || line.starts_with("close") || line.starts_with("tamper") || line.starts_with("big") {
             out.nontrivial_case(&line);
         }
         out.line(line.clone(), o);
